@@ -18,7 +18,8 @@ BOUNDED_RULE = (
     "dispatch is compared with the model when it happens, and a query-all is appended after the last op).  A case is one "
     "complete op sequence; distinct = distinct op sequences; non-trivial = the sequence contains a dispatch of an event "
     "that has at least one listener at that moment (sequences made only of registrations/queries or dispatching only "
-    "into the void are trivial)."
+    "into the void are trivial).  shared_callable: a second alphabet of 10 ops (register one of two shared callables or a "
+    "new one at 3 priorities for one event; dispatch), all sequences of length 4 (quick) / 6 (thorough)."
 )
 
 EVENTS_REG = ("A", "B")
@@ -323,10 +324,99 @@ def bounded(ctx):
             break
     ctx.done(exhaustive=False,
              note=("failing sequences per signature: %r" % (seen,)) if seen else ("%d of %d run" % (done, count) if done < count else ""))
+    _bounded_shared(ctx)
+
+
+# ----------------------------------------------------------------------------- the same callable registered repeatedly
+# A registration is (event, priority, callable); the same callable may be registered more than once, at different
+# priorities.  Each REGISTRATION takes part in the dispatch at its own priority (this is what the dispatcher's tables
+# hold and what get_listeners reports); the ordering rule of the property applies to registrations.
+SHARED_OPS = [("r", p, c) for p in PRIORITIES for c in ("S", "T", "n")] + [("d",)]
+# S: one shared non-stopping callable; T: one shared stopping callable; n: a new non-stopping callable every time
+
+
+def run_shared(seq):
+    from clikit.api.event import EventDispatcher
+
+    disp = EventDispatcher()
+    log = []
+
+    def mk(tag, stops):
+        def listener(event, name, dispatcher):
+            log.append(tag)
+            if stops:
+                event.stop_propagation()
+        return listener
+    shared = {"S": mk("S", False), "T": mk("T", True)}
+    regs = []  # (priority, tag, stops) in registration order
+    fresh = 0
+    for step, op in enumerate(seq):
+        if op[0] == "r":
+            _, prio, c = op
+            if c == "n":
+                tag = "n%d" % fresh
+                fresh += 1
+                fn = mk(tag, False)
+            else:
+                tag, fn = c, shared[c]
+            disp.add_listener("A", fn, prio)
+            regs.append((prio, tag, c == "T"))
+        else:
+            order = []
+            for prio in sorted({r[0] for r in regs}, reverse=True):
+                order.extend(r for r in regs if r[0] == prio)
+            expected = []
+            for r in order:
+                expected.append(r[1])
+                if r[2]:
+                    break
+            del log[:]
+            disp.dispatch("A")
+            if log != expected:
+                return ("shared-callable|dispatch-order", "registrations %r: dispatch called %r, model %r" % (regs, log, expected), step)
+    return None
+
+
+def _bounded_shared(ctx):
+    depth = 4 if ctx.quick else 6
+    ctx.check("shared_callable",
+              "all %d^%d op sequences over {register(event A, priority in {-5,0,7}, callable in {shared non-stopping S, shared "
+              "stopping T, a new one}), dispatch(A)}: the same callable registered repeatedly (also at different priorities) -- "
+              "every dispatch calls the registrations in priority order, registration order inside a priority, up to the "
+              "first stopping one" % (len(SHARED_OPS), depth))
+    seen = {}
+    complete = True
+    n = 0
+    for seq in itertools.product(SHARED_OPS, repeat=depth):
+        regs_seen = False
+        nontriv = False
+        for op in seq:
+            if op[0] == "r":
+                regs_seen = True
+            elif regs_seen:
+                nontriv = True
+        code = "".join("%s%s" % ({-5: "l", 0: "m", 7: "h"}[o[1]], o[2]) if o[0] == "r" else "D." for o in seq)
+        ctx.case(code, nontrivial=nontriv)
+        f = run_shared(seq)
+        if f is not None:
+            k = seen.get(f[0], 0)
+            seen[f[0]] = k + 1
+            if k < _PER_SIG:
+                ctx.fail(f[0], "op %d of %s: %s" % (f[2], code, f[1]), witness={"shared_ops": [list(o) for o in seq]})
+        n += 1
+        if (n & 0xFFF) == 0 and ctx.out_of_time():
+            complete = False
+            break
+    ctx.done(exhaustive=complete, note=("failing sequences per signature: %r" % (seen,)) if seen else "")
 
 
 def replay_bounded(check_id, failure):
     w = failure.get("witness") or {}
+    if w.get("shared_ops"):
+        f = run_shared(tuple(tuple(o) for o in w["shared_ops"]))
+        if f is None:
+            return {"fails": False, "detail": "sequence agrees with the model on this tree"}
+        return {"fails": True, "detail": "%s: op %d: %s" % (f[0], f[2], f[1])}
     code = w.get("ops")
     if not code:
         return {"fails": False, "detail": "no witness"}
